@@ -1,5 +1,5 @@
 (** * Monitors and runner step for environments and markets (C08, C10, C11, C14) *)
-From Bourse Require Import Model.Types Model.Book Model.Obs Model.Codec Model.Rng Model.Env Model.EnvObs
+From Bourse Require Import Model.Types Model.Book Model.Obs Model.Codec Model.Rng Model.Float Model.Env Model.EnvObs Model.Agents
   Spec.RefBook Spec.Monitors Spec.Runner.
 
 Definition l2_eqb (L : nat) (a b : l2data) : bool := list_N_eqb (enc_l2 a) (enc_l2 b).
@@ -169,13 +169,64 @@ Definition explained (L : nat) (e : menv) (impl : list observation) : bool :=
               (perms (en_queue e))
   end.
 
+(** ** C16: what an agent's [update] may submit (checked on the implementation's
+    observations; the agent's own order list is the model's, which agreed with
+    the implementation up to this call) *)
+Definition f32_ge_one (bits : N) : bool := (1065353216 <=? bits) && (bits <? 2139095041).   (* 1.0 <= x <= +inf *)
+Definition f32_le_zero (bits : N) : bool := (bits =? 0) || (2147483648 <=? bits).             (* +0.0 or any negative *)
+
+Definition c16_ok (ag : agent) (o1 o2 : eobs) : N :=
+  let a := match ag with ARandom a _ _ | ANoise a _ _ _ _ | AMomentum a _ _ _ _ _ _ => a end in
+  let dummy := mkObs 0 0 0 0 0 0 0 0 (0,0) (0,0) [] [] [] (mkL2 0 0 0 0 [] []) 0 [] [] in
+  let b1 := nth a (eo_books o1) dummy in
+  let b2 := nth a (eo_books o2) dummy in
+  let new := skipn (length (ob_orders b1)) (ob_orders b2) in
+  let mid2 := ob_bid b1 + ob_ask b1 in                        (* twice the mid-price the agent observed *)
+  let others_same :=
+    alli (fun i (pr : observation * observation) => if Nat.eqb i a then true else obs_eqb (fst pr) (snd pr))
+         0 (combine (eo_books o1) (eo_books o2)) in
+  let status1 id := o_status (oget (ob_orders b1) id) in
+  if negb others_same then 1
+  else if negb (orders_eqb (firstn (length (ob_orders b1)) (ob_orders b2)) (ob_orders b1) && obs_same_but_orders b1 b2) then 2
+  else if negb (forallb (fun o => status_eqb (o_status o) SNew) new) then 3
+  else
+  match ag with
+  | ARandom _ slots p =>
+      let n := N.of_nat (length slots) in
+      let live := N.of_nat (length (filter (fun s => match s with Some id => status_eqb (status1 id) SActive | None => false end) slots)) in
+      if negb (forallb (fun o => negb (is_market o) && (o_price o mod rp_tick p =? 0)
+                                 && (rp_tick_lo p <=? o_price o / rp_tick p) && (o_price o / rp_tick p <? rp_tick_hi p)
+                                 && (rp_vol_lo p <=? o_vol o) && (o_vol o <? rp_vol_hi p) && (o_trader o <? n)) new) then 4
+      else if f32_ge_one (rp_rate p) && negb (N.of_nat (length new) =? n - live) then 5
+      else if f32_le_zero (rp_rate p) && negb (N.of_nat (length new) =? 0) then 6
+      else 0
+  | ANoise _ _ first n p =>
+      let lim := filter (fun o => negb (is_market o)) new in
+      let mkt := filter is_market new in
+      if negb (forallb (fun o => (o_vol o =? np_vol p) && (first <=? o_trader o) && (o_trader o <? first + n)
+                                 && (is_market o || ((o_price o mod np_tick p =? 0)
+                                     && (match o_side o with Bid => 2 * o_price o <=? mid2 | Ask => mid2 <=? 2 * o_price o end)))) new) then 4
+      else if f32_ge_one (np_p_limit p) && negb (N.of_nat (length lim) =? n) then 5
+      else if f32_le_zero (np_p_limit p) && negb (N.of_nat (length lim) =? 0) then 6
+      else if f32_ge_one (np_p_market p) && negb (N.of_nat (length mkt) =? n) then 5
+      else if f32_le_zero (np_p_market p) && negb (N.of_nat (length mkt) =? 0) then 6
+      else if N.of_nat (length lim) <=? n then (if N.of_nat (length mkt) <=? n then 0 else 7) else 7
+  | AMomentum _ _ first n p _ _ =>
+      if negb (forallb (fun o => (o_vol o =? mp_vol p) && (first <=? o_trader o) && (o_trader o <? first + n)
+                                 && (is_market o || ((o_price o mod mp_tick p =? 0)
+                                     && (match o_side o with Bid => 2 * o_price o <=? mid2 | Ask => mid2 <=? 2 * o_price o end)))) new) then 4
+      else if negb (forallb (fun o => side_eqb (o_side o) (o_side (hd dummy_order new))) new) then 8     (* one direction per step *)
+      else if N.of_nat (length new) <=? 2 * n then 0 else 7
+  end.
+
 (** ** Runner state *)
 Record estate := mkES {
   es_kind : N; es_L : nat; es_step : N;
   es_env : menv; es_rng : rng;
   es_prev : eobs;
   es_batch : N;        (* instructions submitted since the last step *)
-  es_valid : bool; es_ended : bool }.
+  es_valid : bool; es_ended : bool;
+  es_agents : list agent; es_pos : N }.
 
 Definition eobs_cats (a b : eobs) : N :=
   (if all2 (fun x y => obs_cats x y =? 0) (eo_books a) (eo_books b) then 0 else 8)
@@ -193,7 +244,7 @@ Definition es_init (kind : N) (L : nat) (seed t0 step_size : N) (trading : bool)
                  | Ok mo => match first_diff 0 (enc_eobs kind L mo) impl_obs with
                             | Some i => [RObs (eobs_cats mo o) i] | None => [] end
                  | Panic => [RPanic true] end in
-      (Some (mkES kind L step_size e g o 0 true false), rep)
+      (Some (mkES kind L step_size e g o 0 true false [] 0), rep)
   | _, _ => (None, [RDecode])
   end.
 
@@ -213,26 +264,55 @@ Definition valid_eop (st : estate) (o : eop) : bool :=
   | _ => true
   end.
 
-Definition es_step_fn (st : estate) (opl impl_out impl_obs : list N) : estate * list report :=
+Definition es_add_agent (st : estate) (l : list N) : option estate :=
+  match dec_agent l with
+  | Some ag => Some (mkES (es_kind st) (es_L st) (es_step st) (es_env st) (es_rng st) (es_prev st)
+                      (es_batch st) (es_valid st) (es_ended st) (es_agents st ++ [ag]) (es_pos st))
+  | None => None
+  end.
+
+Definition es_step_fn (lognormal : N -> N -> option (N * N)) (tanh64 : N -> N)
+  (st : estate) (opl impl_out impl_obs : list N) : estate * list report :=
   if es_ended st then (st, [])
   else
   let ended := mkES (es_kind st) (es_L st) (es_step st) (es_env st) (es_rng st) (es_prev st)
-                 (es_batch st) (es_valid st) true in
-  match dec_eop opl with
+                 (es_batch st) (es_valid st) true (es_agents st) (es_pos st) in
+  (* [20; k]: update agent k; everything else is an environment operation *)
+  let parsed : option (eop + nat) :=
+    match opl with
+    | [20; k] => Some (inr (N.to_nat k))
+    | _ => option_map inl (dec_eop opl)
+    end in
+  match parsed with
   | None => (ended, [RDecode])
-  | Some o =>
+  | Some po =>
+      let o := match po with inl o => o | inr _ => EEnable end in   (* placeholder for the monitors below *)
+      let is_agent := match po with inr _ => true | _ => false end in
       let impl_panicked := list_N_eqb impl_out [9] in
-      let mres := do (e', g', x) <- menv_apply (es_L st) (es_env st) (es_rng st) o;
-                  do mo <- eobserve (es_L st) e' g';
-                  Ok (e', g', x, mo) in
+      let mres :=
+        match po with
+        | inl o =>
+            do (e', g', x) <- menv_apply (es_L st) (es_env st) (es_rng st) o;
+            do mo <- eobserve (es_L st) e' g';
+            let pos' := match o with EStep => es_pos st + shuffle_draws (en_queue (es_env st)) (es_rng st) | _ => es_pos st end in
+            Ok (e', g', x, mo, es_agents st, pos')
+        | inr k =>
+            match nth_error (es_agents st) k with
+            | None => Panic
+            | Some ag =>
+                do (e', c', ag') <- agent_update lognormal tanh64 (N.of_nat k) (es_env st) (mkC (es_rng st) (es_pos st)) ag;
+                do mo <- eobserve (es_L st) e' (cg c');
+                Ok (e', cg c', ONone, mo, set_nth (es_agents st) k ag', cpos c')
+            end
+        end in
       match mres with
       | Panic => (ended, if impl_panicked then [] else [RPanic true])
-      | Ok (e', g', x, mo) =>
+      | Ok (e', g', x, mo, agents', pos') =>
           if impl_panicked then (ended, [RPanic false])
           else
           match dec_out impl_out, dec_eobs (es_kind st) (es_L st) impl_obs with
           | Some ix, Some o2 =>
-              let valid := es_valid st && valid_eop st o in
+              let valid := es_valid st && (is_agent || valid_eop st o) in
               let r_out := if list_N_eqb (enc_out x) impl_out then [] else [ROut] in
               let r_obs := match first_diff 0 (enc_eobs (es_kind st) (es_L st) mo) impl_obs with
                            | Some i => [RObs (eobs_cats mo o2) i] | None => [] end in
@@ -247,20 +327,28 @@ Definition es_step_fn (st : estate) (opl impl_out impl_obs : list N) : estate * 
                 | _, _ => []
                 end in
               let mk p c := if c =? 0 then [] else [RMonitor p c] in
-              let batch' := match o with
+              let batch' := if is_agent then es_batch st + 1000000 (* unknown: excluded from the batch-fits clause *) else match o with
                             | EPlace _ _ _ _ _ => (match ix with OCreated (Created _) => es_batch st + 1 | _ => es_batch st end)
                             | ECancel _ _ | EModify _ _ _ _ => es_batch st + 1
                             | EStep => 0 | _ => es_batch st end in
               let in_c08 := es_batch st <=? es_step st in
+              let r_agent :=
+                match po with
+                | inr k => match nth_error (es_agents st) k with
+                           | Some ag => mk 16 (c16_ok ag (es_prev st) o2)
+                           | None => [] end
+                | _ => []
+                end in
               let r_mon :=
-                if valid then
+                if valid && is_agent then r_agent else
+                if valid && negb is_agent then
                   mk 10 (c10_ok (es_L st) (es_prev st) o ix o2)
                   ++ (if es_kind st =? 2 then [] else mk 10 (c10_cache_ok (es_L st) o2))
                   ++ (if es_kind st =? 2 then [] else mk 11 (c11_ok (es_L st) (es_prev st) o o2))
                   ++ (if in_c08 then mk 8 (c08_ok (es_step st) (N.max 1 (es_batch st)) (es_prev st) o o2) else [])
                   ++ mk 14 (c14_ok (es_prev st) o o2) ++ mk 14 (clock_shared o2)
                 else [] in
-              (mkES (es_kind st) (es_L st) (es_step st) e' g' o2 batch' valid false,
+              (mkES (es_kind st) (es_L st) (es_step st) e' g' o2 batch' valid false agents' pos',
                r_out ++ r_obs ++ r_sched ++ r_mon)
           | _, _ => (ended, [RDecode])
           end
